@@ -173,6 +173,8 @@ def judge_darksky(q, single=True):
     sun_cut = sun[k] + d if a_sun else sun[k] - d
     moon_cut = moon[k] + d if a_moon else moon[k] - d
     ph_cut = phase[k] - d if a_ph else phase[k] + d
+    if q.get("cuts") is not None:  # thresholds given outright (exact zeros among them) instead of placed at the pivot
+        sun_cut, moon_cut, ph_cut = q["cuts"]
     cfg = mk(1.0, 0.2, q["date"], q["T"], q["N"], q["lat"], q["lon"], q["alt"], 7.0, sm={"sun_alt_cut": float(sun_cut), "moon_alt_cut": float(moon_cut), "moon_min_phase_angle_cut": float(ph_cut)})
     out = []
     with warnings.catch_warnings():
@@ -410,6 +412,11 @@ def run(ctx):
             for assign in itertools.product((True, False), repeat=3):
                 for delta in (1e-3, 0.2):
                     qs.append(dict(date=date, T=T, N=N, lat=la, lon=lo, alt=alt, pivot=pivot, assign=list(assign), delta=delta))
+    # thresholds given outright, each of them exactly zero in turn (a zero threshold is a threshold, not "unset"):
+    # Sun below the horizon, Moon below the horizon, any Moon phase
+    for date, (la, lo, alt) in itertools.product(dates, poss):
+        for cuts in ((0.0, 0.0, 0.0), (0.0, math.radians(-5), math.radians(120)), (math.radians(-12), 0.0, math.radians(60)), (math.radians(-6), math.radians(10), 0.0), (0, 0, 0)):
+            qs.append(dict(date=date, T=30 * 86400.0, N=36, lat=la, lon=lo, alt=alt, pivot=0, assign=[True, True, True], delta=0.0, cuts=list(cuts)))
     for q, (v, sig) in zip(qs, par.pmap(judge_darksky, qs)):
         nds += 1
         ctx.tick(q["N"], ("dark", sig))
